@@ -140,6 +140,11 @@ class C18(Prop):
                     c['default_handler'] = True
                     c['mode'] = 'default_after_other'
                     c['stream'] += ':default-dir-after-other-dir'
+                    if (csv_seen // len(order)) % 2 == 1:
+                        # the variable is not set at all: the files are found in the current directory, which changes
+                        # between the two sessions
+                        c['default_handler'] = 'cwd'
+                        c['stream'] += ':cwd'
             if c['mode'] == 'twice' and rng.random() < 0.6:
                 c['share_universe'] = True          # the second run is given the universe object of the first
                 c['stream'] += ':shared-universe'
